@@ -19,7 +19,7 @@ func init() {
 		NotDecided:  []string{"value-level round trip and canonical forms", "JSON ≡ protobuf on values", "byte counts", "anything inside gogo/protobuf and jsonpb"},
 		Assumptions: []string{"tables are extracted from switch statements in encoding/convert (a converter rewritten in another form makes the rule report UNDECIDED rather than pass)"},
 		Rules: func(r *Run) {
-		ruleCounterDirection(r, "M10", "/encoding")
+			ruleCounterDirection(r, "M10", "/encoding")
 			ruleC11M11(r)
 			pk := r.P.ByPath[modPath+"/encoding/convert"]
 			if pk == nil {
